@@ -54,6 +54,7 @@ type Case struct {
 	DLms     int         `json:"dl_ms,omitempty"`     // the short deadline, milliseconds from the start of the run
 	Kind     string      `json:"kind"`              // constructive | wild | corpus | cli | c16
 	Note     string      `json:"note,omitempty"`
+	Expect   string      `json:"expect,omitempty"` // corpus of C16: the by-construction expectation (c16Expect as JSON)
 }
 
 func (c *Case) fileBytes() []byte {
@@ -265,6 +266,7 @@ func runImpl(c *Case, dir string) *Obs {
 		n, _ := strconv.Atoi(m[1])
 		o.FailLines = append(o.FailLines, n)
 	}
+	setupReached := o.Work != ""
 	if o.Work == "" {
 		// setup failed before Params.Setup was called: the log of a run that keeps its work
 		// directory starts with its name
@@ -273,6 +275,9 @@ func runImpl(c *Case, dir string) *Obs {
 		} else {
 			o.Work = filepath.Join(dir, "root", "script-s")
 		}
+	}
+	if !setupReached {
+		o.Env = envFromTemplate(o.Work)
 	}
 	o.Tree = snapshot(o.Work)
 	o.FileAfter, _ = os.ReadFile(script)
@@ -375,4 +380,24 @@ func stampFile2(path string) fileStamp {
 		st.ino = sys.Ino
 	}
 	return st
+}
+
+// The initial environment of a script is the same list for every script but for the work
+// directory.  When setup fails before Params.Setup is called the harness never sees it, although
+// the entry names were expanded with it: it is rebuilt from the list one successful run showed.
+var envTemplate []string
+var envTemplateWork string
+
+func saveEnvTemplate(o *Obs) {
+	if len(o.Env) > 0 && o.Work != "" && envTemplate == nil {
+		envTemplate, envTemplateWork = append([]string{}, o.Env...), o.Work
+	}
+}
+
+func envFromTemplate(work string) []string {
+	var out []string
+	for _, kv := range envTemplate {
+		out = append(out, strings.ReplaceAll(kv, envTemplateWork, work))
+	}
+	return out
 }
